@@ -920,6 +920,24 @@ def run(prog, rep, tier):
     if n1414 < 1:
         raise CheckerError("R14.14: no read of standard input found in main / cli_process_args")
 
+    # ------------------------------------------------------------ R14.15 durations built from the user's numbers are combined with checked arithmetic
+    # Each of the five terms of '+NwNdNhNmNs' passes its own range check (Duration::try_*); their *sum* can
+    # still leave chrono's range.  `TimeDelta + TimeDelta` panics on overflow - in a release build the
+    # program aborts (exit 134) instead of rejecting the value with an error.  In the offset parser no
+    # panicking `Add`/`Sub` of two TimeDeltas is used; the terms are joined with checked_add.
+    R1415 = rep.rule("R14.15", "the relative-offset parser adds its range-checked terms with checked arithmetic")
+    wb15 = prog.body("s4::string_wdhms_to_duration")
+    pan15 = [c for c in wb15.live_calls() if "TimeDelta" in c.f and (c.o.startswith("std::ops::Add::") or c.o.startswith("std::ops::Sub::") or c.o.startswith("core::ops::Add::") or c.o.startswith("core::ops::Sub::"))
+             and "TimeDelta" in str(c.callee.get("ga") or c.f)]
+    chk15 = [c for c in wb15.live_calls() if c.d.endswith("TimeDelta::checked_add") or c.d.endswith("TimeDelta::checked_sub")]
+    tries15 = [c for c in wb15.live_calls() if "TimeDelta::try_" in c.d]
+    rep.examined(R1415, wb15.path + "|sum", sample={"range_checked_terms": len(tries15), "checked_additions": len(chk15), "panicking_additions": [c.line for c in pan15]})
+    if len(tries15) < 2:
+        raise CheckerError("R14.15: string_wdhms_to_duration builds %d range-checked terms" % len(tries15))
+    if pan15:
+        rep.violation(R1415, wb15.path + "|panicking-sum", "string_wdhms_to_duration (line %d) adds the range-checked terms of a relative offset with `+`; a value such as '@+9223372036854775s153722867280912m' passes every single check, "
+                      "overflows in the sum and aborts the program (exit 134) instead of being rejected with an error" % pan15[0].line)
+
     return rep.finish(
         "Static necessary-condition check of the CLI datetime-filter path: the relative-offset grammar is anchored (regular-language analysis of "
         "the const-evaluated pattern), a bare date is completed to 00:00:00 in value and pattern together, zone-less values are parsed in the "
